@@ -42,6 +42,7 @@ type TraceDecl struct {
 	Pattern string // callee name pattern (suffix match on qualified name or method name)
 	Event   string // event label; may contain $0,$1 for constant args
 	As      string // bind result value to this ghost name
+	When    *SExpr // bind only when this holds ($k = call arguments, earlier binds visible)
 	Props   []string
 }
 
@@ -409,8 +410,18 @@ func (db *ContractDB) LoadContractFile(file, pkgPath string) {
 				cur.Clauses = append(cur.Clauses, cl)
 			case "trace":
 				// trace <calleePattern> as <Event> [bind <name>]
+				var when *SExpr
+				if k := strings.Index(r, " when "); k >= 0 {
+					we, err := ParseSpecExpr(strings.TrimSpace(r[k+6:]))
+					if err != nil {
+						errf("%v", err)
+						return
+					}
+					when = we
+					r = r[:k]
+				}
 				fs := strings.Fields(r)
-				td := &TraceDecl{Props: props}
+				td := &TraceDecl{Props: props, When: when}
 				if len(fs) >= 1 {
 					td.Pattern = fs[0]
 					td.Event = fs[0]
